@@ -274,8 +274,8 @@ struct ChModel {
 enum Expect { EX_NONE, EX_SILENT, EX_AT_LEAST_ONE, EX_EXACTLY_ONE };
 
 static const char *cmdname(int c) {
-  static const char *n[] = {"?", "add", "enable", "disable", "del", "peer_write", "drain", "peer_close", "sleep", "peer_shut_wr", "reopen"};
-  return (c >= 0 && c <= 10) ? n[c] : "?";
+  static const char *n[] = {"?", "add", "enable", "disable", "del", "peer_write", "drain", "peer_close", "sleep", "peer_shut_wr", "reopen", "enable1", "disable1"};
+  return (c >= 0 && c <= 12) ? n[c] : "?";
 }
 
 static Verdict run_fire(const FireCase &c) {
@@ -300,6 +300,12 @@ static Verdict run_fire(const FireCase &c) {
     case E_ADD:
       if (usable) { m[ch].tpt_set = true; m[ch].reg = true; m[ch].enabled = true; m[ch].flags = cm.flags & 3; }
       break;
+    case E_ENABLE1:  // no flags argument: the registration keeps the flags its record remembers (none after a delete / a one-shot report)
+      if (usable && c.kind[ch] != 3 && m[ch].tpt_set) { m[ch].reg = true; m[ch].enabled = true; }
+      break;
+    case E_DISABLE1:
+      if (usable && c.kind[ch] != 3 && m[ch].tpt_set) { m[ch].reg = true; m[ch].enabled = false; strong[i][ch] = true; }
+      break;
     case E_ENABLE:
       // enable/disable/delete need the thread binding that only tpt_ev_add() stores in the user record (EINVAL before)
       if (usable && m[ch].tpt_set) { m[ch].reg = true; m[ch].enabled = true; m[ch].flags = cm.flags & 3; }
@@ -308,10 +314,11 @@ static Verdict run_fire(const FireCase &c) {
       if (usable && m[ch].tpt_set) {
         if (c.kind[ch] == 3 && !m[ch].reg) break;  // ENOENT for timers that do not exist
         m[ch].reg = true; m[ch].enabled = false; strong[i][ch] = true;
+        if (c.kind[ch] != 3) m[ch].flags = cm.flags & 3;  // a read/write disable stores the flags it was given
       }
       break;
     case E_DEL:
-      if (usable && m[ch].tpt_set) { m[ch].reg = false; m[ch].enabled = false; strong[i][ch] = true; }
+      if (usable && m[ch].tpt_set) { m[ch].reg = false; m[ch].enabled = false; m[ch].flags = 0; strong[i][ch] = true; }
       break;
     case E_PEER_WRITE: if (c.kind[ch] == 1 || c.kind[ch] == 2) { if (!m[ch].eof) m[ch].pending++; } break;
     case E_DRAIN: if (c.kind[ch] == 1 || c.kind[ch] == 2) m[ch].pending = 0; break;
@@ -328,7 +335,7 @@ static Verdict run_fire(const FireCase &c) {
       bool cond = c.kind[j] == 1 ? (m[j].pending > 0 || m[j].eof) : true /* write ends are writable (or in error), timers elapse */;
       bool active = m[j].reg && m[j].enabled && cond;
       if (!active) { ex[i][j] = EX_SILENT; continue; }
-      if (m[j].flags & F_ONESHOT) { ex[i][j] = EX_EXACTLY_ONE; m[j].reg = false; m[j].enabled = false; wait |= (1 << j); }
+      if (m[j].flags & F_ONESHOT) { ex[i][j] = EX_EXACTLY_ONE; m[j].reg = false; m[j].enabled = false; m[j].flags = 0; wait |= (1 << j); }
       else if (m[j].flags & F_DISPATCH) { ex[i][j] = EX_EXACTLY_ONE; m[j].enabled = false; wait |= (1 << j); }
       else { ex[i][j] = EX_AT_LEAST_ONE; wait |= (1 << j); }
     }
@@ -382,7 +389,7 @@ static Verdict run_fire(const FireCase &c) {
           // baseline: the moment the (re)arming call returned on the owning thread; for calls from outside on a
           // channel that was already firing persistently the count before the fence cannot be separated, so only
           // ">= 1 and silent after settling" is asserted there.
-          bool is_reg_cmd = (j == chx) && (cm.cmd == E_ADD || cm.cmd == E_ENABLE);
+          bool is_reg_cmd = (j == chx) && (cm.cmd == E_ADD || cm.cmd == E_ENABLE || cm.cmd == E_ENABLE1);
           if (is_reg_cmd && !cm.outside) PBT_REQUIRE(s.fired_late[j] == s.fired_at_ret[j] + 1, tag << ": one-shot/dispatch registration fired " << (s.fired_late[j] - s.fired_at_ret[j]) << " times after arming");
           else if (is_reg_cmd && cm.outside && was_persistent[j]) PBT_REQUIRE(s.fired_late[j] >= prev[j] + 1 && s.fired_late[j] == s.fired_after[j], tag << ": one-shot/dispatch registration kept firing");
           else PBT_REQUIRE(s.fired_late[j] == prev[j] + 1, tag << ": one-shot/dispatch registration fired " << (s.fired_late[j] - prev[j]) << " times");
@@ -438,9 +445,9 @@ static rc::Gen<FireCase> genFire() {
       Cmd cm;
       cm.ch = *range<int>(0, nch - 1);
       int kd = c.kind[cm.ch];
-      if (kd == 4) { cm.cmd = *rc::gen::weightedElement<int>({{4, E_ADD}, {2, E_ENABLE}, {2, E_DISABLE}, {2, E_DEL}, {3, E_PEER_CLOSE}, {1, E_SLEEP}}); }
+      if (kd == 4) { cm.cmd = *rc::gen::weightedElement<int>({{4, E_ADD}, {2, E_ENABLE}, {2, E_DISABLE}, {2, E_DEL}, {3, E_PEER_CLOSE}, {1, E_SLEEP}, {2, E_ENABLE1}, {1, E_DISABLE1}}); }
       else cm.cmd = (kd == 3) ? *rc::gen::weightedElement<int>({{4, E_ADD}, {2, E_ENABLE}, {3, E_DISABLE}, {2, E_DEL}, {2, E_SLEEP}})
-                         : *rc::gen::weightedElement<int>({{4, E_ADD}, {2, E_ENABLE}, {3, E_DISABLE}, {2, E_DEL}, {4, E_PEER_WRITE}, {2, E_DRAIN}, {1, E_PEER_CLOSE}, {1, E_PEER_SHUT_WR}, {1, E_SLEEP}, {1, E_REOPEN}});
+                         : *rc::gen::weightedElement<int>({{4, E_ADD}, {2, E_ENABLE}, {3, E_DISABLE}, {2, E_DEL}, {4, E_PEER_WRITE}, {2, E_DRAIN}, {1, E_PEER_CLOSE}, {1, E_PEER_SHUT_WR}, {1, E_SLEEP}, {1, E_REOPEN}, {2, E_ENABLE1}, {1, E_DISABLE1}});
       cm.outside = *rc::gen::weightedElement<int>({{3, 0}, {1, 1}});
       cm.flags = *rc::gen::weightedElement<int>({{3, 0}, {2, F_ONESHOT}, {2, F_DISPATCH}});
       cm.arg = *range<int>(1, 30);
